@@ -52,10 +52,33 @@ def check(ctx) -> Result:
     conjugation(ctx, res, T3, "CCNOT", "CCZ", 3)
     sw = ctx.ix.module(TQ).classes.get("SWAP")
     ini = sw.methods["__init__"]
-    ms = [c for c in walk_no_nested(ini.node) if isinstance(c, ast.Call) and src(c.func) == "self.mode_swaps"]
-    unpack = {src(a.targets[0]).strip("()"): src(a.value) for a in walk_no_nested(ini.node) if isinstance(a, ast.Assign)}
-    okm = len(ms) == 1 and src(ms[0].args[0]).replace(" ", "") == "{a0:b0,b0:a0,a1:b1,b1:a1}" and unpack.get("a0, a1") == "qubit_1" and unpack.get("b0, b1") == "qubit_2"
-    res.add(okm, "K-swap-rails", "SWAP", ini.site(), ini.qualname, "rail k of qubit 1 is exchanged with rail k of qubit 2", "SWAP does not exchange equal rails of the two qubits", construct=src(ms[0].args[0]) if ms else "")
+    # SWAP: the dictionary handed to mode_swaps, with the two qubits bound to symbolic rails (A0, A1), (B0, B1)
+    from .. import symseq as _ss
+    ms = [c for c in walk_no_nested(ini.node) if isinstance(c, ast.Call) and src(c.func) == "self.mode_swaps" and c.args]
+    qp = [p_ for p_ in ini.params() if p_ != "self"]
+    if len(ms) != 1 or len(qp) != 2:
+        res.frozen(False, "K-swap-rails", "SWAP", ini.site(), ini.qualname, "", "single call of self.mode_swaps(<dict>) not recognised", construct="")
+    else:
+        ev_ = _ss.Eval({qp[0]: ["A0", "A1"], qp[1]: ["B0", "B1"]})
+        par_s = {c_: n_ for n_ in ast.walk(ini.node) for c_ in ast.iter_child_nodes(n_)}
+        st_ms = ms[0]
+        while not isinstance(st_ms, ast.stmt):
+            st_ms = par_s[st_ms]
+        before = []
+        for st_ in ini.node.body:
+            if st_ is st_ms:
+                break
+            before.append(st_)
+        try:
+            ev_.run(before)
+            d_ = ev_.ev(ms[0].args[0])
+            if not isinstance(d_, dict):
+                raise _ss.Unknown("argument is not a dictionary")
+            want = {"A0": "B0", "B0": "A0", "A1": "B1", "B1": "A1"}
+            res.add(d_ == want, "K-swap-rails", "SWAP", ini.site(ms[0]), ini.qualname, "rail k of qubit 1 is exchanged with rail k of qubit 2",
+                    f"SWAP does not exchange equal rails of the two qubits: with qubit_1 = (A0, A1), qubit_2 = (B0, B1) the swap table is {d_}", construct=str(d_))
+        except _ss.Unknown as e_:
+            res.frozen(False, "K-swap-rails", "SWAP", ini.site(ms[0]), ini.qualname, "", f"swap table not derived: {e_}", construct=src(ms[0].args[0])[:100])
     from ..rules import rz_falsy
     nz = rz_falsy.none_checks(ctx, res, "C13", ())
     res.floor("Z functions scanned", nz, 3)
